@@ -195,7 +195,7 @@ int main(int argc, char** argv) {
         if (alphabet == "loaded") {   // the default file and every file that differs from it in ONE generator dimension (thorough: also the listed pairs that put an unusual parameter section under an unusual shape)
             roots.push_back({"default", "default"});
             for (auto& d : gen::dims(false)) for (size_t a = 1; a < d.alts.size(); ++a) { if (d.name == "points" && d.alts[a] == "255") continue; roots.push_back({d.name + "=" + d.alts[a], d.name + "=" + d.alts[a]}); }
-            for (auto x : {"points=0;optparams=nolabels", "chans=0;optparams=nolabels", "points=0;frames=1", "chans=0;frames=1"}) roots.push_back({x, x});
+            for (auto x : {"points=0;optparams=nolabels", "chans=0;optparams=nolabels", "points=0;frames=1", "chans=0;frames=1", "points=0;optparams=nolabels;frames=0", "chans=0;optparams=nolabels;frames=0"}) roots.push_back({x, x});   // (…;frames=0: template files, nothing stored yet)
             if (tier == "thorough") for (auto sh : {"points=1", "chans=1", "frames=1", "points=0", "chans=0", "frames=0"}) for (auto ps : {"optparams=minimal", "optparams=rich", "agroup=empty", "labels=fewer", "labels=more", "alabels=fewer", "alabels=more", "rates=0x1", "datastart=absent", "extra=none", "locks=yes", "first=705"}) roots.push_back({std::string(sh) + ";" + ps, std::string(sh) + ";" + ps});
         }
         std::string rdir = scratch + "/roots"; mkdir(rdir.c_str(), 0755);
